@@ -23,7 +23,8 @@ RULE = ("grammar schemas (biased to many simultaneous errors and anyOf/oneOf/typ
         "validation yields >= 1 error or the schema is invalid; distinct by canonical JSON.")
 ASSUMPTIONS = ["relations are asserted only when no RefResolutionError/UnknownType occurs",
                "first-error order is compared within one process (same objects, same hash seed)"]
-REPORT_COUNTERS = ["cases", "cases_with_2plus_errors", "cases_context_depth2", "invalid_schemas", "proxy_controls_touched",
+TRIPWIRE_EXPECTED = ("urlopen",)
+REPORT_COUNTERS = ["cases", "reused_validator_sequences", "cases_with_2plus_errors", "cases_context_depth2", "invalid_schemas", "proxy_controls_touched",
                    "via_dollar_schema", "with_format_checker", "best_match_is_descendant", "best_match_is_toplevel"]
 
 
@@ -34,7 +35,8 @@ def shards(tier):
 def floors(tier):
     return {"cases": 20000, "cases_with_2plus_errors": 5000, "cases_context_depth2": 500, "invalid_schemas": 2000,
             "proxy_controls_touched": 500, "via_dollar_schema": 2000, "with_format_checker": 2000,
-            "best_match_is_descendant": 500, "best_match_is_toplevel": 2000}
+            "best_match_is_descendant": 500, "best_match_is_toplevel": 2000,
+            "reused_validator_sequences": 1000}
 
 
 # ------------------------------------------------------------------ recording proxies
@@ -231,6 +233,51 @@ class Cmp:
             self.ctx.count("proxy_controls_touched")
 
 
+def reused_validator_sequence(ctx, d, arr, insts):
+    """"Repeating any call yields identical results" also holds on ONE validator object that is used through all
+    its entry points in turn (is_valid and validate stop at the first error and abandon the iteration)."""
+    from jsonschema import RefResolver
+    cls = impl.CLS[d]
+
+    def make():
+        def handler(url):
+            return arr.handler_docs[url.split("#")[0]]
+        return cls(arr.schema, resolver=RefResolver.from_schema(arr.schema, id_of=cls.ID_OF, store=dict(arr.store),
+                                                                handlers={"vf": handler}))
+    try:
+        fresh = {}
+        for k, inst in enumerate(insts):
+            fresh[k] = fps(make().iter_errors(inst))
+    except Exception:
+        ctx.count("skipped_exception_delegated_to_C03")
+        return
+    V = make()
+    case = {"draft": d, "schema": arr.schema, "store": arr.store, "handler_docs": arr.handler_docs, "instances": insts,
+            "reused_validator": True}
+    ctx.count("reused_validator_sequences")
+    ctx.case([d, arr.schema, arr.store, insts, "reused"], nontrivial=any(fresh.values()))
+    for rnd in range(2):
+        for k, inst in enumerate(insts):
+            want = fresh[k]
+            try:
+                iv = V.is_valid(inst)
+                st, r = run_ep(lambda: V.validate(inst))
+                errs = fps(V.iter_errors(inst))
+                iv2 = V.is_valid(inst)
+            except (X.RefResolutionError, X.UnknownType) as e:
+                ctx.violation("reused-validator-disagrees", dict(case, step=[rnd, k]),
+                              "%s on the reused validator; a fresh validator yields %d error(s)" % (type(e).__name__, len(want)))
+                return
+            except Exception as e:
+                ctx.violation("entry-point-exception", dict(case, step=[rnd, k]), "%s: %s" % (type(e).__name__, str(e)[:120]))
+                return
+            if errs != want or iv != (not want) or iv2 != iv or (st == "error") != bool(want):
+                ctx.violation("reused-validator-disagrees", dict(case, step=[rnd, k]),
+                              "on a validator already used through is_valid/validate: is_valid=%s/%s validate=%s iter_errors=%d error(s); "
+                              "a fresh validator yields %d" % (iv, iv2, st, len(errs), len(want)))
+                return
+
+
 def biased(rng, d):
     g = SchemaGen(rng, d, maxdepth=rng.choice([1, 2, 3]))
     s = g.schema()
@@ -268,6 +315,11 @@ def run(ctx):
         for inst in insts:
             C.valid_schema_case(d, schema, inst, use_fc=rng.random() < 0.3, via_schema_kw=via)
         C.proxy_control(d, schema, insts[0])
+        if i % 3 == 0 and isinstance(schema, dict) and not via:
+            from vf.gen import refs as R
+            arr = R.arrange(rng, d, schema)
+            if arr is not None and R.arrangement_ok(arr):
+                reused_validator_sequence(ctx, d, arr, insts)
         # invalid variants of the same schema
         for _ in range(2):
             bad, where = mutate_schema(rng, d, schema, n=rng.choice([1, 1, 2]))
